@@ -45,6 +45,13 @@ class Interp:
             return self.env[n.id]
         if isinstance(n, ast.Subscript):
             assert isinstance(n.value, ast.Name) and n.value.id == "bs"
+            if isinstance(n.slice, ast.Slice):
+                lo = self.ev(n.slice.lower) if n.slice.lower is not None else None
+                hi = self.ev(n.slice.upper) if n.slice.upper is not None else None
+                assert n.slice.step is None and all(x is None or isinstance(x, int) for x in (lo, hi)), "slice bounds must be concrete"
+                if (hi if hi is not None else len(self.bs)) > len(self.bs):
+                    raise NotImplementedError("slice beyond the modelled prefix")
+                return list(self.bs[lo:hi])
             idx = self.ev(n.slice)
             assert isinstance(idx, int)
             return self.bs[idx]
@@ -83,6 +90,21 @@ class Interp:
             return ok
         if isinstance(n, ast.Call) and isinstance(n.func, ast.Name) and n.func.id == "range":
             return range(*[self.ev(a) for a in n.args])
+        if isinstance(n, ast.Call) and isinstance(n.func, ast.Name) and n.func.id == "len":
+            v = self.ev(n.args[0])
+            assert isinstance(v, list)
+            return len(v)
+        if isinstance(n, ast.Call) and isinstance(n.func, ast.Attribute) and n.func.attr == "from_bytes" \
+                and isinstance(n.func.value, ast.Name) and n.func.value.id == "int":
+            # int.from_bytes(<slice of bs>, "big" | "little", signed=False)
+            data = self.ev(n.args[0])
+            kw = {k.arg: self.ev(k.value) for k in n.keywords}
+            order = self.ev(n.args[1]) if len(n.args) > 1 else kw.get("byteorder", "big")
+            assert isinstance(data, list) and order in ("big", "little") and not kw.get("signed", False)
+            acc = z3.BitVecVal(0, W)
+            for t in (data if order == "big" else list(reversed(data))):
+                acc = acc * 256 + self.bv(t)
+            return acc
         raise NotImplementedError(ast.dump(n))
 
     @staticmethod
@@ -130,6 +152,12 @@ def main():
             got = "error"
         except Returned as r:
             got = r.v
+        except (NotImplementedError, AssertionError, KeyError, TypeError) as e:
+            # the function's current source uses a construct this translator does not encode: no verdict from this query
+            # (the CrossHair obligations of the property still run the function itself)
+            print("@@RESULT@@" + json.dumps({"name": "rlp_payload_smt", "status": "unknown", "paths": b0,
+                                             "message": "source not translatable at b0=%d: %s %s" % (b0, type(e).__name__, str(e)[:200])}))
+            return
         # RLP definition
         if 0xc0 <= b0 <= 0xf7:
             want = b0 - 0xc0
